@@ -159,14 +159,14 @@ theorem execStep_agree (s s' : Sys) (i : Wid) (fuel : Nat) (ordQ : List Pid) (h 
     (execStep s i fuel ordQ).wk i = (execStep s' i fuel ordQ).wk i ∧
     (execStep s i fuel ordQ).evtQ i = (execStep s' i fuel ordQ).evtQ i := by
   have he := h.evtQ
-  simp only [execStep, h.wk, h.prog, h.now] <;> (repeat' split) <;>
+  simp only [execStep, Sys.noteExit, h.wk, h.prog, h.now] <;> (repeat' split) <;>
     simp_all [Sys.setWk, Sys.pushEvt]
 
 theorem execStep_frame (s : Sys) (i : Wid) (fuel : Nat) (ordQ : List Pid) :
     (execStep s i fuel ordQ).cmdQ = s.cmdQ ∧ (execStep s i fuel ordQ).env = s.env ∧ (execStep s i fuel ordQ).prog = s.prog ∧
     (execStep s i fuel ordQ).now = s.now ∧ (execStep s i fuel ordQ).n = s.n ∧ (execStep s i fuel ordQ).fault = s.fault ∧
     (∀ k, k ≠ i → (execStep s i fuel ordQ).wk k = s.wk k ∧ (execStep s i fuel ordQ).evtQ k = s.evtQ k) := by
-  simp only [execStep] <;> (repeat' split) <;>
+  simp only [execStep, Sys.noteExit] <;> (repeat' split) <;>
     simp (config := { contextual := true }) [Sys.setWk, Sys.pushEvt]
 
 theorem Local.execStep (i : Wid) (fuel : Nat) (ordQ : List Pid) : Local (fun s => execStep s i fuel ordQ) i := by
